@@ -363,7 +363,10 @@ impl Check for C02Print {
         let styles: Vec<u8> = if case.style == 3 { vec![3, 0, 1, 2] } else { let mut v = vec![case.style]; v.extend((0..3).filter(|s| *s != case.style)); v };
         let mut first_out: Vec<u8> = Vec::new();
         for (k, st) in styles.iter().enumerate() {
-            let out = run(&args_for(case, *st, true), input);
+            let out = match run_any_sink(&args_for(case, *st, true), input) {
+                Ok(o) => o,
+                Err(m) => return CaseResult::Fail(m),
+            };
             if !out.res.is_ok() {
                 return CaseResult::Fail(format!("style {}: jawk failed: {}", st, out.res.short()));
             }
